@@ -625,7 +625,8 @@ Lemma walk_children : forall cap ch, (1 <= cap)%nat -> Forall (walk_ok cap) ch -
                (snd (mv_children ch (c, k)) + length L = k + length L')%nat.
 Proof.
   intros cap ch Hcap HF. induction HF as [|t ch Ht _ IH]; intros c k L Hinv Hsub.
-  - exists L, []. cbn. rewrite app_nil_r. repeat split; auto.
+  - exists L, []. cbn [mv_children fold_left fst snd flat_map app]. rewrite app_nil_r.
+    split; [exact Hinv|]. split; [reflexivity|]. split; [constructor|]. split; [auto|lia].
   - cbn [forallb] in Hsub. apply andb_true_iff in Hsub. destruct Hsub as [Hs1 Hs2].
     unfold mv_children. cbn [fold_left]. fold (mv_children ch (mv_visit t (c, k))).
     destruct (Ht c k L Hinv Hs1) as [L1 [X1 [Hi1 [Hp1 [Hg1 [Hm1 Hk1]]]]]].
@@ -664,4 +665,73 @@ Proof.
       destruct Hgs as [Hz|[Hf Hm]]; [left; lia|right; split; [exact Hf|lia]].
     + exact Hmono1.
     + rewrite ca_insert_length. lia.
+Qed.
+
+(* counting *)
+Lemma filter_perm_length : forall (p : N -> bool) l l', Permutation l l' -> length (filter p l) = length (filter p l').
+Proof.
+  intros p l l' H. induction H; cbn; auto.
+  - destruct (p x); cbn; auto.
+  - destruct (p x), (p y); reflexivity.
+  - lia.
+Qed.
+Lemma filter_app_length : forall (p : N -> bool) a b, length (filter p (a ++ b)) = (length (filter p a) + length (filter p b))%nat.
+Proof. intros. rewrite filter_app, app_length. reflexivity. Qed.
+Lemma filter_all : forall (p : N -> bool) l, Forall (fun x => p x = true) l -> length (filter p l) = length l.
+Proof. induction 1 as [|x l H _ IH]; cbn; [reflexivity|]. rewrite H. cbn. lia. Qed.
+Lemma filter_none : forall (p : N -> bool) l, Forall (fun x => p x = false) l -> length (filter p l) = 0%nat.
+Proof. induction 1 as [|x l H _ IH]; cbn; [reflexivity|]. rewrite H. exact IH. Qed.
+Lemma filter_le_length : forall (p : N -> bool) l, (length (filter p l) <= length l)%nat.
+Proof. induction l as [|x l IH]; cbn; [lia|]. destruct (p x); cbn; lia. Qed.
+
+Lemma sorted_app_le : forall a b, StronglySorted N.le (a ++ b) -> forall x y, In x a -> In y b -> x <= y.
+Proof.
+  induction a as [|z a IH]; intros b Hs x y Hx Hy; [destruct Hx|].
+  cbn [app] in Hs. inversion Hs as [|? ? Hs' Hall]; subst. destruct Hx as [->|Hx].
+  - rewrite Forall_forall in Hall. apply Hall. apply in_or_app. right. exact Hy.
+  - eapply IH; eauto.
+Qed.
+
+(* Part 2 of cappedarr_topN: when the walk visited more than cap nodes (the only case in which minValue uses
+   the array), MinValue is the cap-th largest node total of the WHOLE tree: fewer than cap totals are greater,
+   at least cap totals are greater or equal — although the walk never pushed the descendants of refused nodes *)
+Theorem cappedarr_tree_topN : forall cap t, (1 <= cap)%nat -> t_subb t = true ->
+  let st := mv_visit t (ca_new cap, 0%nat) in
+  (cap < snd st)%nat ->
+  let m := ca_min (fst st) in
+  t_minval cap t = m /\
+  (count_gt m (all_totals t) < cap)%nat /\ (cap <= count_ge m (all_totals t))%nat.
+Proof.
+  intros cap t Hcap Hsub st Hvis m.
+  split. { unfold t_minval. fold st. destruct (Nat.leb_spec (snd st) cap); [lia|reflexivity]. }
+  assert (Hinv0 : ca_inv cap (ca_new cap) []).
+  { split; [reflexivity|]. split; [constructor|reflexivity]. }
+  destruct (walk_ok_all cap t Hcap (ca_new cap) 0%nat [] Hinv0 Hsub) as [L' [X [Hinv [Hperm [Hgs [_ Hk]]]]]].
+  fold st in Hinv, Hgs, Hk. rewrite app_nil_r in Hperm. cbn [length] in Hk.
+  destruct Hinv as [Hmax [Hs Hv]].
+  assert (HL : (cap < length L')%nat) by lia.
+  set (m0 := (length L' - cap)%nat) in *.
+  assert (Hsplit : L' = firstn m0 L' ++ skipn m0 L') by (symmetry; apply firstn_skipn).
+  unfold topn in Hv. fold m0 in Hv.
+  assert (Hwl : length (skipn m0 L') = cap) by (rewrite skipn_length; lia).
+  destruct (skipn m0 L') as [|w0 W] eqn:EW; [cbn in Hwl; lia|].
+  assert (Hm : m = w0) by (unfold m, ca_min; rewrite Hv; reflexivity).
+  pose proof (skipn_sorted m0 L' Hs) as HsW. rewrite EW in HsW. inversion HsW as [|? ? _ HallW]; subst w0.
+  assert (Hpre : Forall (fun x => x <= m) (firstn m0 L')).
+  { rewrite Forall_forall. intros x Hx. rewrite Hsplit in Hs. eapply sorted_app_le; eauto. left. reflexivity. }
+  assert (HX : Forall (fun x => x <= m) X).
+  { eapply Forall_impl; [|exact Hgs]. cbn. intros x [Hz|[_ Hle]]; [lia|exact Hle]. }
+  unfold count_gt, count_ge.
+  rewrite <- (filter_perm_length _ _ _ Hperm), <- (filter_perm_length _ _ _ Hperm).
+  assert (HcL : forall p : N -> bool, length (filter p L') = (length (filter p (firstn m0 L')) + length (filter p (m :: W)))%nat).
+  { intros p. rewrite <- EW, <- filter_app_length, firstn_skipn. reflexivity. }
+  rewrite !filter_app_length, !HcL.
+  split.
+  - rewrite (filter_none _ (firstn m0 L')) by (eapply Forall_impl; [|exact Hpre]; cbn; intros; lia).
+    rewrite (filter_none _ X) by (eapply Forall_impl; [|exact HX]; cbn; intros; lia).
+    cbn [filter]. replace (m <? m) with false by lia.
+    pose proof (filter_le_length (fun x => m <? x) W). cbn [length] in Hwl. lia.
+  - assert (Hall : length (filter (fun x => m <=? x) (m :: W)) = length (m :: W)).
+    { apply filter_all. constructor; [lia|]. eapply Forall_impl; [|exact HallW]. cbn. intros; lia. }
+    rewrite Hall, Hwl. lia.
 Qed.
